@@ -6,9 +6,10 @@
   `parse N = build N ∘ parseRaw`; `stringify gap` = SerializeJSONProperty with indent; `quote` = QuoteJSONString.
 
   Number text ↔ double is C12's subject: a number is its lexeme, `NumLexOK l` ("l is re-lexed as itself in a context
-  that ends a number") and `N.canon l = l` ("l is the canonical text of its value") are hypotheses of `Normal`.
+  that ends a number" — proved for every lexeme of the number grammar) and `N.canon l = l` ("l is the canonical text of
+  its value") are parts of `Normal`; `NumCanonOK N` is the only hypothesis about the number↔text function.
 -/
-import GojaModel.C19.Build
+import GojaModel.C19.Normalize
 
 namespace GojaModel.C19
 
@@ -97,14 +98,28 @@ theorem parse_stringify_int (gap : Str) (hg : AllWs gap) (l : Str) (hl : NatLex 
   by_cases hi : isIdx (k, JVal.arr [.num l, .num (45 :: l)]) = true <;>
     simp [Normal, NormalL, NormalM, NumCanon.id, h.1, h.2, hk, KeysOK, keys, IdxSorted, hi]
 
-/-- stringify ∘ parse is idempotent on normal forms: the canonical text is a fixed point.
-    `_partial`: the missing half of `stringify_parse_canonical` is `parse N t = some v → Normal N v`
-    (the parser yields well-formed trees and `build` yields KeysOK member lists) — not proved here; the
-    correspondence run checks it on every accepted text (model dump = goja dump = python reference dump). -/
-theorem stringify_parse_canonical_partial (N : NumCanon) (v : JVal) (h : Normal N v) :
-    (parse N (stringify [] v)).map (stringify []) = some (stringify [] v) := by
-  rw [parse_stringify N [] (fun c hc => by cases hc) v h]
-  rfl
+/-- JSON.parse returns values in normal form: well-formed strings, grammatical number lexemes in canonical text,
+    no duplicate keys, array-index keys first in ascending order then the other keys (for every UTF-16 text). -/
+theorem parse_yields_normal (N : NumCanon) (hN : NumCanonOK N) (t : Str) (v : JVal) (ht : WfStr t)
+    (h : parse N t = some v) : Normal N v :=
+  parse_normal N hN ht h
+
+/-- stringify_parse_canonical: if `parse t = v` then the canonical text `stringify v` (i) parses back to `v`, for every
+    white-space gap, and (ii) is a fixed point of stringify ∘ parse (idempotence), whatever the indentation used in
+    between.  Number text under `NumCanonOK` (C12's subject): canonical text is a lexeme and canonicalising is idempotent. -/
+theorem stringify_parse_canonical (N : NumCanon) (hN : NumCanonOK N) (t : Str) (v : JVal) (ht : WfStr t)
+    (h : parse N t = some v) (gap : Str) (hg : AllWs gap) :
+    parse N (stringify gap v) = some v ∧
+      (parse N (stringify gap v)).map (stringify []) = some (stringify [] v) ∧
+      (parse N (stringify [] v)).map (stringify []) = some (stringify [] v) := by
+  have hn := parse_normal N hN ht h
+  rw [parse_stringify N gap hg v hn, parse_stringify N [] (fun c hc => by cases hc) v hn]
+  exact ⟨rfl, rfl, rfl⟩
+
+/-- with the identity canonicaliser (what the driver runs; numbers compared as lexemes) no hypothesis is left -/
+theorem stringify_parse_canonical_id (t : Str) (v : JVal) (ht : WfStr t) (h : parse NumCanon.id t = some v) :
+    parse NumCanon.id (stringify [] v) = some v :=
+  (stringify_parse_canonical NumCanon.id numCanonOK_id t v ht h [] (fun c hc => by cases hc)).1
 
 /-- duplicate keys: the last value wins at the position of the first occurrence; "__proto__" is a key like any other -/
 theorem upsert_existing (k : Str) (v v' : JVal) (pre post : List (Str × JVal)) (h : k ∉ keys pre) :
@@ -117,14 +132,37 @@ theorem upsert_existing (k : Str) (v v' : JVal) (pre post : List (Str × JVal)) 
     have h2 : k ∉ keys t := by intro e; apply h; simp [keys] at e ⊢; exact Or.inr e
     simp [upsert, h1, ih h2]
 
-/-- parse_total_decides, string tokens, completeness half: every body derivable in the ECMA-404 string grammar
-    (`StrBody`) is accepted by the lexer with exactly the denoted units.
-    `_partial`: soundness (lexer accepts ⇒ derivable) and the number / array / object levels are not proved; the parser is
-    total by construction (structural recursion; `parseRaw` is a total function), and accept/reject agreement with an
-    independent reference parser is part of the correspondence run. -/
-theorem parse_total_decides_strings_partial {b u : Str} (h : StrBody b u) (rest : Str) :
-    parseStrBody (b ++ 34 :: rest) = some (u, rest) :=
-  strBody_complete h rest
+/-- parse_total_decides: the parser is a total function and accepts EXACTLY the texts of the ECMA-404 grammar
+    (`Text`/`Gram`: inductive relation over literals, numbers, strings, arrays, objects, white space), returning exactly
+    the denoted tree.  Both directions, all value kinds, unbounded nesting. -/
+theorem parse_total_decides (t : Str) (v : JVal) : parseRaw t = some v ↔ Text t v :=
+  parseRaw_iff_text t v
+
+/-- rejection is therefore exactly non-membership in the grammar -/
+theorem parse_rejects_iff_not_text (t : Str) : parseRaw t = none ↔ ¬ ∃ v, Text t v := by
+  constructor
+  · intro h ⟨v, hv⟩
+    rw [(parse_total_decides t v).mpr hv] at h
+    cases h
+  · intro h
+    cases hp : parseRaw t with
+    | none => rfl
+    | some v => exact absurd ⟨v, (parse_total_decides t v).mp hp⟩ h
+
+/-- number tokens: the lexer's result is a lexeme of the number grammar and a prefix of the input … -/
+theorem number_lexer_sound (s l r : Str) (h : parseNum s = some (l, r)) : NumGram l ∧ s = l ++ r :=
+  parseNum_sound h
+
+/-- … and every lexeme of the number grammar is lexed as itself in any context that ends a number -/
+theorem number_lexer_complete (l rest : Str) (hl : NumGram l) (hs : Stop rest) : parseNum (l ++ rest) = some (l, rest) :=
+  numGram_lexOK hl rest hs
+
+/-- string tokens: lexer ⇔ string grammar `StrBody` (both directions) -/
+theorem string_lexer_iff (s u r : Str) : parseStrBody s = some (u, r) ↔ ∃ b, StrBody b u ∧ s = b ++ 34 :: r := by
+  constructor
+  · exact parseStrBody_sound _ s (Nat.le_refl _) u r
+  · rintro ⟨b, hb, rfl⟩
+    exact strBody_complete hb r
 
 /-- white space: only space, tab, LF, CR are skipped (NBSP, U+FEFF, form feed, vertical tab are not) -/
 theorem isWs_exact (c : Nat) : isWs c = true ↔ (c = 32 ∨ c = 9 ∨ c = 10 ∨ c = 13) := by
